@@ -27,7 +27,7 @@ PROPS = {
         "harness": "walq", "level": "exploration", "per_proc": 250,
         "quick": {"runs": 6000, "budget_s": 240},
         "thorough": {"runs": 400000, "budget_s": 1500, "shrink_runs": 600},
-        "rule": "Two run shapes. Sequential histories (5-40 operations over 1-3 groups: put / create-group / consume / ack inside, below and above the window / set-consumed / sync / gc / stop-group / reopen) checked after every operation against a reference model of (appended, queue ack, per-group consumed/ack) plus the invariants of the statement and readability of every sequence above the queue ack. Concurrent runs: appender, consumer, acker and a Sync/GC task on one group under a seeded schedule, positions monitored at every scheduling step, each Ack judged against the window bounds observed around the call.",
+        "rule": "Two run shapes. Sequential histories (5-40 operations over 1-3 groups: put / create-group / consume / ack inside, below and above the window / set-consumed / sync / gc / stop-group / reopen) checked after every operation against a reference model of (appended, queue ack, per-group consumed/ack) plus the invariants of the statement and readability of every sequence above the queue ack. Concurrent runs: appender, consumer, acker and a Sync/GC task on one group under a seeded schedule, positions monitored at every scheduling step, each Ack judged against the window bounds observed around the call; when the tasks have come to rest the queue is closed and reopened and appended / consumed / acknowledged must be what they were in memory.",
         "fault_kinds": ["close-reopen"],
         "real": ["pkg/queue (fan-out queue, consumer groups, queue, page factory, mapped pages on tmpfs)"],
         "stub": [],
@@ -56,7 +56,7 @@ PROPS["C01"] = {
     "harness": "kvs", "level": "fault_enumeration", "per_proc": 12, "proc_timeout": 900,
     "quick": {"runs": 480, "budget_s": 300},
     "thorough": {"runs": 6000, "budget_s": 1700, "shrink_runs": 300},
-    "rule": "Each generated history (1-2 families; 4-12 operations out of flush [1-6 keys, Add and StreamWriter mixed, value padding 0..3000 bytes so the 4 KiB writer buffer flushes mid-table, optional per-leader sequence, sequence-only flush], Family.Compact, background compaction tick, rollup bookkeeping against a second store, clean close+reopen) is first run without faults (reference-model equality after every operation). Then it is re-executed once per file-system seam operation k=1..N of that fault-free run (quick tier: at most 60 evenly spread points with a per-history random offset; thorough: all N) with the process killed right before operation k; the store is reopened by a fresh incarnation and judged; thorough chains up to two more deaths a few operations later (inside recovery). evaluations = executions (fault-free + crashing). Seam operations: create/write/sync/flush/close of manifest and table writers, write-file and rename of CURRENT, OPTIONS rewrite, mkdir, remove, map/unmap.",
+    "rule": "Each generated history (1-2 families, or - a third of the histories - 3-4 families with parallel flushes: 2-3 flusher tasks on different families of the one store at the same time under a seeded schedule, sharing the file number allocator, manifest and version set; after a crash every family on its own must show its state before or after the flush that was in flight on it; 4-12 operations out of flush [1-6 keys, Add and StreamWriter mixed, value padding 0..3000 bytes so the 4 KiB writer buffer flushes mid-table, optional per-leader sequence, sequence-only flush], Family.Compact, background compaction tick, rollup bookkeeping against a second store, clean close+reopen) is first run without faults (reference-model equality after every operation). Then it is re-executed once per file-system seam operation k=1..N of that fault-free run (quick tier: at most 60 evenly spread points with a per-history random offset; thorough: all N) with the process killed right before operation k; the store is reopened by a fresh incarnation and judged; thorough chains up to two more deaths a few operations later (inside recovery). evaluations = executions (fault-free + crashing). Seam operations: create/write/sync/flush/close of manifest and table writers, write-file and rename of CURRENT, OPTIONS rewrite, mkdir, remove, map/unmap.",
     "fault_kinds": ["crash@write", "crash@sync", "crash@create", "crash@close", "crash@rename", "crash@writefile", "crash@writetoml", "crash@remove", "crash@mkdir", "close-reopen"],
     "real": ["kv (store, store manager, family, flusher, compact job, rollup bookkeeping)", "kv/version (version set, manifest, edit logs, recovery)", "kv/table (builder, mmap reader, cache)", "pkg/bufioutil"],
     "stub": ["merger: a harness merger registered with kv.RegisterMerger (token-set union) so content is invariant under compaction"],
@@ -83,8 +83,8 @@ PROPS["C08"] = {
     "harness": "repl", "level": "exploration", "per_proc": 60, "proc_timeout": 900,
     "quick": {"runs": 2500, "budget_s": 300},
     "thorough": {"runs": 120000, "budget_s": 1700, "shrink_runs": 200, "shrink_timeout": 600},
-    "rule": "Each run: a leader node and a follower node, each a real WriteAheadLogManager on its own directory; the leader's partition replicates through its real local and remote replicators, the follower answers through the real storage RPC ReplicaHandler; unary calls and the bidirectional stream are simulated (1 ms latency per hop). 4-17 operations: leader appends of unique messages, waits, follower restart (clean / process death / death + log directory lost), follower offline/online with (duplicate) notifications, leader Sync+GC, leader restart (clean / death / death + an older image of its log restored = lost tail); in addition the tape breaks streams before delivery, after the request was delivered (stale delivery by the dead stream's handler), fails stream creation and unary calls before/after they took effect. After the last fault: settle, then two more appends must reach the follower at the leader's positions within 120 simulated seconds.",
-    "fault_kinds": ["break-before-delivery", "break-after-request", "stale-delivery", "stream-open-fail", "unary-fail-before", "unary-fail-after", "follower-restart-0", "follower-restart-1", "follower-log-lost", "follower-offline", "duplicate-online-notification", "leader-gc", "leader-restart-0", "leader-restart-1", "leader-tail-lost"],
+    "rule": "Each run: a leader node and a follower node, each a real WriteAheadLogManager on its own directory; the leader's partition replicates through its real local and remote replicators, the follower answers through the real storage RPC ReplicaHandler; unary calls and the bidirectional stream are simulated (1 ms latency per hop). 4-17 operations: leader appends of unique messages, waits, follower restart (clean / process death / death + log directory lost), follower offline/online with (duplicate) notifications, leader Sync+GC, leader restart (clean / death / death + an older image of its log restored = lost tail; also as a macro 'the leader loses exactly the last 1-2 messages the follower already has'); the follower's log append fails with an I/O error at tape-chosen calls; in addition the tape breaks streams before delivery, after the request was delivered (stale delivery by the dead stream's handler), fails stream creation and unary calls before/after they took effect. After the last fault: settle, then two more appends must reach the follower at the leader's positions within 120 simulated seconds.",
+    "fault_kinds": ["follower-put-fails", "break-before-delivery", "break-after-request", "stale-delivery", "stream-open-fail", "unary-fail-before", "unary-fail-after", "follower-restart-0", "follower-restart-1", "follower-log-lost", "follower-offline", "duplicate-online-notification", "leader-gc", "leader-restart-0", "leader-restart-1", "leader-tail-lost"],
     "real": ["replica (wal manager, wal, partition, local replicator, remote replicator incl. handshake)", "app/storage/rpc ReplicaHandler", "pkg/queue (fan-out queue, consumer groups, pages on tmpfs)"],
     "stub": ["tsdb.Engine / Shard / DataFamily (interfaces; replication of a log never touches tsdb data)", "coordinator/storage StateManager (live-node table + notifications driven by the plan)", "rpc.ClientStreamFactory and the gRPC streams (simnet: ordered, reliable until broken)"],
     "assumptions": COMMON_ASSUME + ["gRPC semantics modelled: a stream is ordered and reliable until it breaks; unary calls either fail before or after taking effect", "positions destroyed by a leader tail loss are exempt from byte comparison until the handshake re-aligned the indexes", "compile-time knobs: queue page size 512 bytes, 8 index entries per page"],
@@ -111,8 +111,8 @@ PROPS["C09"] = {
     "harness": "ids", "level": "exploration", "per_proc": 100, "proc_timeout": 900,
     "quick": {"runs": 4000, "budget_s": 300},
     "thorough": {"runs": 200000, "budget_s": 1700, "shrink_runs": 300, "shrink_timeout": 600},
-    "rule": "Each run: one real MetricMetaDatabase shared by a metadata-worker task (metric ids, field ids) and 1-2 shard index-worker tasks, each with its own real MetricIndexDatabase (metric id, series id and through it tag key / tag value ids) - the callers tsdb/memdb has - over a small name universe (2 namespaces x 4 metrics x 8 tag sets x 3 fields) under a seeded schedule; 1-3 phases of 2-11 calls with PrepareFlush-in-worker + Flush-in-own-task for the meta and index databases (meta flushes serialised as the flush checker does), ending with nothing, flush, flush+close+reopen, or process death (at a file-system seam operation of the kv stores, at entry of the sequence sync / flush functions, or idle). Oracle: ledger name<->ID per kind and scope; after restart get-only lookups (GetMetricID, GetSchema, CollectTagValues, postings) decide what survived, everything that survived must have its old ID, after a clean reopen everything must have survived, and new names must not receive IDs that surviving dictionaries or postings use for another name.",
-    "fault_kinds": ["crash@write", "crash@yield", "crash-idle", "close-reopen"],
+    "rule": "Each run: one real MetricMetaDatabase shared by a metadata-worker task (metric ids, field ids) and 1-2 shard index-worker tasks, each with its own real MetricIndexDatabase (metric id, series id and through it tag key / tag value ids) - the callers tsdb/memdb has - over a small name universe (2 namespaces x 4 metrics x 8 tag sets x 3 fields) under a seeded schedule; 1-3 phases of 2-11 calls with PrepareFlush-in-worker + Flush-in-own-task for the meta and index databases (meta flushes serialised as the flush checker does), from the second phase on also an adversarial schedule ('suspend': a caller is held at a chosen yield point of its get-or-create while another caller creates the same metric name and a complete metadata (+ index) flush cycle passes, then continues, then the name is asked again); ending with nothing, flush, flush+close+reopen, or process death (at a file-system seam operation of the kv stores, at entry of the sequence sync / flush functions, or idle). Oracle: ledger name<->ID per kind and scope; after restart get-only lookups (GetMetricID, GetSchema, CollectTagValues, postings) decide what survived, everything that survived must have its old ID, after a clean reopen everything must have survived, and new names must not receive IDs that surviving dictionaries or postings use for another name.",
+    "fault_kinds": ["crash@write", "crash@yield", "crash-idle", "close-reopen", "caller-suspended"],
     "real": ["index (kv store, metric meta database, metric index database, schema store, sequence)", "index/v1 flushers/readers/mergers, index/model trie buckets", "kv stores underneath", "hashicorp/golang-lru expirable cache (rewritten copy)"],
     "stub": ["tsdb/memdb workers: replaced by harness tasks calling the same index APIs in the same roles (the real workers run in the node harness)"],
     "assumptions": COMMON_ASSUME + ["series ids are generated by one caller per index database, as one shard index worker does"],
@@ -127,7 +127,7 @@ PROPS["C10"] = {
     "harness": "node", "level": "exploration", "per_proc": 60, "proc_timeout": 900,
     "quick": {"runs": 2500, "budget_s": 300},
     "thorough": {"runs": 120000, "budget_s": 1700, "shrink_runs": 200, "shrink_timeout": 600},
-    "rule": "Each run: a real tsdb engine with 1-2 shards; a universe of 2-11 series (tag id always present and unique, host out of 4 values incl. a multi-byte one and values sharing prefixes, optional zone and app) spread over the shards; 7-15 operations out of write (1-12 points), the flush sequence of the flush checker (metadata -> shard index -> family data), kv compaction of every store, query, and query running concurrently with the flush sequence under a seeded schedule. Every query carries a generated tag condition (depth <= 3 over =, !=, in, not in, like prefix/suffix/contains/exact, not like, =~, !~, and/or, parentheses) and groups by id,host through the real MetricDataSearch -> leaf pipeline. Oracle: the condition evaluated by brute force on the tags of every series written before the query started (missing key = false, also for the negated forms, as the statement's 'not = series having the key minus matches'); the set of returned groups and their group-key values must equal it exactly. A condition naming a tag key that no written series carries is expected to be rejected ('tag key not found').",
+    "rule": "Each run: a real tsdb engine with 1-2 shards; a universe of 2-11 series (tag id always present and unique, host out of 4 values incl. a multi-byte one and values sharing prefixes, optional zone and app) spread over the shards; 7-15 operations out of write (1-12 points), the flush sequence of the flush checker (metadata -> shard index -> family data), kv compaction of every store, a jump of the metric's series id sequence past the next roaring container boundary (hook; series ids end up in up to three containers), query, and query running concurrently with the flush sequence under a seeded schedule (every second flush is a job of the engine's real flush checker, which also garbage collects write buffers; a query that finishes while the flush still runs is asked again). Every query carries a generated tag condition (depth <= 3 over =, !=, in, not in, like prefix/suffix/contains/exact, not like, =~, !~, and/or, parentheses) and groups by id,host through the real MetricDataSearch -> leaf pipeline. Oracle: the condition evaluated by brute force on the tags of every series written before the query started (missing key = false, also for the negated forms, as the statement's 'not = series having the key minus matches'); the set of returned groups and their group-key values must equal it exactly. A condition naming a tag key that no written series carries is expected to be rejected ('tag key not found').",
     "fault_kinds": ["flush", "compact"],
     "real": NODE_REAL, "stub": NODE_STUB,
     "assumptions": COMMON_ASSUME + ["the group-by keys id,host exist on every series, so the returned group keys identify the selected series"],
@@ -152,7 +152,7 @@ PROPS["C12"] = {
     "harness": "node", "level": "exploration", "per_proc": 40, "proc_timeout": 900,
     "quick": {"runs": 1500, "budget_s": 300},
     "thorough": {"runs": 60000, "budget_s": 1700, "shrink_runs": 150, "shrink_timeout": 600},
-    "rule": "Each run: one real engine holding the same generated points twice - database A with one shard, database K with 2-4 shards over which the series are spread; 4-9 operations out of write (to both), flush sequence (both), query. Every query (generator of C11: field, time range, interval, optional tag condition, group by none/host/id/id,host) is executed under 3-5 physical layouts: A on one leaf; K with all shards on one leaf; K with the shards partitioned over 2..k leaf nodes (leaves whose shards hold no matching data occur); and for group-by queries the partitioned layout and A through an intermediate node (real IntermediateTaskProcessor) between root and leaves. Each response travels in its own task with a tape-chosen transit time (0/0/1/3 ms), so arrival order and the interleaving of arrivals with leaves that are still working are seeded. Oracle: every answer must equal the reference model of C11, all answers must have the same outcome (error or not) and equal groups/slots/values (values of last/first fields only when one group is one series).",
+    "rule": "Each run: one real engine holding the same generated points twice - database A with one shard, database K with 2-4 shards over which the series are spread; 4-9 operations out of write (to both), flush sequence (both), query. Every query (generator of C11: field, time range, interval, optional tag condition, group by none/host/id/id,host) is executed under 3-5 physical layouts: A on one leaf; K with all shards on one leaf; K with the shards partitioned over 2..k leaf nodes (leaves whose shards hold no matching data occur); the partitioned layout plus one more leaf node that has never seen the metric (it answers from a database that never received a point); and for group-by queries the partitioned layout and A through an intermediate node (real IntermediateTaskProcessor) between root and leaves. Each response travels in its own task with a tape-chosen transit time (0/0/1/3 ms), so arrival order and the interleaving of arrivals with leaves that are still working are seeded. Oracle: every answer must equal the reference model of C11, all answers must have the same outcome (error or not) and equal groups/slots/values (values of last/first fields only when one group is one series).",
     "fault_kinds": ["flush"],
     "real": NODE_REAL, "stub": NODE_STUB,
     "assumptions": COMMON_ASSUME + ["series are spread over shards by a seeded assignment (a superset of what the routing hash of series/metric/row_broker.go can produce)", "leaf 'nodes' are several real leaf task processors over the one engine, each given its own shard ids, as flow/node_choose.go would assign them"],
@@ -165,8 +165,8 @@ PROPS["C07"] = {
     "harness": "node", "level": "exploration", "per_proc": 40, "proc_timeout": 900,
     "quick": {"runs": 1500, "budget_s": 300},
     "thorough": {"runs": 80000, "budget_s": 1700, "shrink_runs": 150, "shrink_timeout": 600},
-    "rule": "Each run: a storage node without its network - real tsdb engine (one database, one shard, one family), the real write-ahead-log manager with the partition of this node as leader, its real local replicator loop and the engine's real flush checker - through up to 6 process incarnations on one directory. 9-20 operations out of: append 1-3 messages of 1-3 rows to the log (partition.WriteLog, as the write handler does), request a flush job (database.Flush: metadata -> index -> family data, running concurrently with replication), request and wait, log housekeeping (Sync + GC), let background work run, read back, clean shutdown in the runtime's order (stop log manager, close engine, close log) and start. While an operation runs the process may die at a tape-chosen point: before a file-system operation of any kv store (data family, shard index, metadata), at a function entry of the queue / page / replica / tsdb / memdb / kv / version / index packages (probability x20 at commit / acknowledge / sequence functions), i.e. also between data commit, sequence record and log acknowledgement. After every restart the real recovery runs (WriteAheadLogManager.Recovery, replicator rewinds to ack+1), the harness waits for catch-up and reads every cell back through the real query pipeline. Oracle: every message writes 1 into 1-3 (series, slot) cells of a sum field that no other message touches: a cell of a message whose append returned must read exactly 1 (nothing = lost, 2 = applied twice), a cell of an append in flight at the death 0 or 1, no other cell may exist, the series must carry its own tags; right after recovery the log's acknowledged position must not exceed the sequence stored with the flushed data.",
-    "fault_kinds": ["crash@fs-write", "crash@fs-sync", "crash@queue", "crash@page", "crash@tsdb", "crash@index", "crash@version", "crash@kv", "crash@memdb", "crash@replica", "clean-restart", "flush-request", "log-gc"],
+    "rule": "Each run: a storage node without its network - real tsdb engine (one database, one shard, one family), the real write-ahead-log manager with the partition of this node as leader, its real local replicator loop and the engine's real flush checker - through up to 6 process incarnations on one directory. 9-20 operations out of: append 1-3 messages of 1-3 rows to the log (partition.WriteLog, as the write handler does), request a flush job (database.Flush: metadata -> index -> family data, running concurrently with replication), request and wait, log housekeeping (Sync + GC), let background work run, read back, clean shutdown in the runtime's order (stop log manager, close engine, close log) and start; a quarter of the histories end with late data of an expired family: memory database time-to-live longer than a day, 26 simulated hours pass (the log manager's hourly housekeeping may destroy the expired partition's log), then the process dies. While an operation runs the process may die at a tape-chosen point: before a file-system operation of any kv store (data family, shard index, metadata), at a function entry of the queue / page / replica / tsdb / memdb / kv / version / index packages (probability x20 at commit / acknowledge / sequence functions), i.e. also between data commit, sequence record and log acknowledgement. After every restart the real recovery runs (WriteAheadLogManager.Recovery, replicator rewinds to ack+1), the harness waits for catch-up and reads every cell back through the real query pipeline. Oracle: every message writes 1 into 1-3 (series, slot) cells of a sum field that no other message touches: a cell of a message whose append returned must read exactly 1 (nothing = lost, 2 = applied twice), a cell of an append in flight at the death 0 or 1, no other cell may exist, the series must carry its own tags; right after recovery the log's acknowledged position must not exceed the sequence stored with the flushed data.",
+    "fault_kinds": ["crash@fs-write", "crash@fs-sync", "crash@queue", "crash@page", "crash@tsdb", "crash@index", "crash@version", "crash@kv", "crash@memdb", "crash@replica", "clean-restart", "flush-request", "log-gc", "family-expired"],
     "real": NODE_REAL + ["replica (write-ahead-log manager, log, partition, local replicator)", "pkg/queue fan-out queue on mapped pages", "tsdb data flush checker and its workers"],
     "stub": ["rpc transport for the read-back query (loopback)", "no remote replicas, no broker"],
     "assumptions": COMMON_ASSUME + ["writes are not failed artificially (Replica() acknowledges a message whose write returned an error by design)", "a clean shutdown waits for the running flush job first (dataFamily.Close can wait forever for a flush that needs the lock Close holds - observed, outside this property)"],
